@@ -166,16 +166,16 @@ void h_end_of_block(void)
 /* O6.3  mtf_one(), fast path (index < 16): from EVERY position of the first row inside the slide and every content. */
 void h_mtf_fast(void)
 {
-  static uint8_t slide[SLIDE_LENGTH]; uint8_t *row[NUM_ROWS];
+  uint8_t slide[SLIDE_LENGTH];            /* arbitrary content (never written by the harness) */
+  uint8_t *row[NUM_ROWS];
   V_IN(unsigned, off0);
   V_IN(unsigned, c);
   V_IN(unsigned, q);
-  V_IN_ARR(uint8_t, init, ROW_WIDTH);
   unsigned i; uint8_t before[ROW_WIDTH];
   V_ASSUME(off0 <= SLIDE_LENGTH - ROW_WIDTH && c < ROW_WIDTH && q < SLIDE_LENGTH);
-  { uint8_t fill; for (i = 0; i < NUM_ROWS; i++) row[i] = slide + i * ROW_WIDTH; }      /* rows 1..15 are not touched by the fast path */
+  for (i = 0; i < NUM_ROWS; i++) row[i] = slide + i * ROW_WIDTH;       /* rows 1..15 are not touched by the fast path */
   row[0] = slide + off0;
-  for (i = 0; i < ROW_WIDTH; i++) { slide[off0 + i] = init[i]; before[i] = init[i]; }
+  for (i = 0; i < ROW_WIDTH; i++) before[i] = slide[off0 + i];
   uint8_t qv = slide[q];
   uint8_t r = mtf_one(row, slide, (uint8_t)c);
   V_ASSERT(r == before[c], "mtf_one (index < 16): returns the element at that position of the list");
